@@ -95,7 +95,7 @@ type c24aReplay struct {
 	Frame string    `json:"frame,omitempty"`
 	ID    string    `json:"id,omitempty"`
 	Doc   string    `json:"doc,omitempty"`
-	Calls []string  `json:"calls,omitempty"` // retention: labels of c24aRetentionOps
+	Calls []string  `json:"calls,omitempty"` // retention: labels of c24aRetentionOps; pipelined: op labels
 }
 
 type c24aViol struct{ fp, msg string }
@@ -423,6 +423,74 @@ func c24aRetention(r *ev.R, outb map[string]frame.Frame) {
 	r.Assume("adapter retention: calls are made one at a time on one goroutine; overlapping Encode calls of concurrently served sessions are not enumerated")
 }
 
+// c24aPipelinedOps is the alphabet of the pipelined section: Decode of one id-bearing or
+// id-less request, or a TakeReplyTokens of 1..3 tokens that is NOT in lockstep with Decode.
+func c24aPipelinedOps() []string {
+	return []string{"D:a", "D:b", "D:c", "D:-", "T1", "T2", "T3"}
+}
+
+// c24aRunPipelined runs one op sequence on a fresh adapter + session against a FIFO model of
+// the reply-token queue. Every slice returned by TakeReplyTokens is retained uncopied and
+// judged twice: when it is returned and again after all later calls (a reply is written long
+// after its request was decoded, so the token must still name that request).
+func c24aRunPipelined(ops []string) (string, *c24aViol) {
+	ad := wsmux.New()
+	var tracker protocol.ReplyTokenTracker = ad
+	sess := c24aSession()
+	var model []string
+	type taken struct {
+		at   int
+		got  []string
+		want []string
+	}
+	var kept []taken
+	var v *c24aViol
+	if p := ev.Recover(func() {
+		for i, op := range ops {
+			if strings.HasPrefix(op, "D:") {
+				id := op[2:]
+				doc := `{"jsonrpc":"2.0","method":"ping","id":"` + id + `"}`
+				if id == "-" {
+					doc = `{"jsonrpc":"2.0","method":"recvack","params":{"messageId":"7","messageSeq":3}}`
+				}
+				frames, consumed, err := ad.Decode(sess, []byte(doc))
+				if err != nil || len(frames) != 1 || consumed != len(doc) {
+					v = &c24aViol{"C24:adapter-pipelined-decode", fmt.Sprintf("step %d (%s) of %v: Decode = %d frames, consumed %d, err %v", i, op, ops, len(frames), consumed, err)}
+					return
+				}
+				if id != "-" {
+					model = append(model, id)
+				}
+				continue
+			}
+			n := int(op[1] - '0')
+			got := tracker.TakeReplyTokens(sess, n)
+			if n > len(model) {
+				n = len(model)
+			}
+			want := append([]string(nil), model[:n]...)
+			model = model[n:]
+			if !reflect.DeepEqual(append([]string{}, got...), append([]string{}, want...)) {
+				v = &c24aViol{"C24:adapter-pipelined-token-order", fmt.Sprintf("step %d (%s) of %v: TakeReplyTokens returned %q, the oldest outstanding request ids are %q", i, op, ops, got, want)}
+				return
+			}
+			kept = append(kept, taken{i, got, want})
+		}
+		for _, k := range kept {
+			if !reflect.DeepEqual(append([]string{}, k.got...), append([]string{}, k.want...)) {
+				v = &c24aViol{"C24:adapter-pipelined-token-changed-after-take", fmt.Sprintf("ops %v: the tokens returned at step %d were %q and read %q after the later calls", ops, k.at, k.want, k.got)}
+				return
+			}
+		}
+	}); p != nil {
+		return "panic", &c24aViol{"C24:adapter-panic", fmt.Sprintf("pipelined ops %v: %v", ops, p)}
+	}
+	if v != nil {
+		return "violation", v
+	}
+	return fmt.Sprintf("ok:takes=%d:left=%d", len(kept), len(model)), nil
+}
+
 func TestVerifC24Adapter(t *testing.T) {
 	r := ev.Start(t, "C24")
 	defer r.Finish()
@@ -444,6 +512,8 @@ func TestVerifC24Adapter(t *testing.T) {
 			out, v = c24aCheckEncode(rp.Frame, outb[rp.Frame], rp.ID)
 		case "bytes":
 			out, v = c24aCheckBytes([]byte(rp.Doc))
+		case "pipelined":
+			out, v = c24aRunPipelined(rp.Calls)
 		case "retention":
 			byLabel := map[string]c24aOp{}
 			for _, o := range c24aRetentionOps() {
@@ -564,5 +634,32 @@ func TestVerifC24Adapter(t *testing.T) {
 	// ---- retention of Encode results across later calls
 	c24aRetention(r, c24aOutboundWithLong())
 
-	r.Assume("the gateway takes reply tokens in lockstep with Decode (gateway/core.dispatchInboundFrames: TakeReplyTokens(len(frames)) right after each Decode)")
+	// ---- pipelined: takes that are not in lockstep with Decode
+	pl := ev.Pick(r, 6, 7)
+	e4 := r.NewEnum("adapter-pipelined")
+	pops := c24aPipelinedOps()
+	partial := 0
+	var pwalk func(prefix []string)
+	pwalk = func(prefix []string) {
+		if len(prefix) > 0 {
+			out, v := c24aRunPipelined(prefix)
+			e4.CaseByConstruction(true, out)
+			if v != nil {
+				r.Violation(ev.Violation{Fingerprint: v.fp, Message: v.msg, System: "adapter-pipelined", Replay: c24aReplay{Kind: "pipelined", Calls: append([]string(nil), prefix...)}})
+			} else if strings.HasPrefix(out, "ok:") && !strings.HasSuffix(out, "left=0") && !strings.HasPrefix(out, "ok:takes=0") {
+				partial++
+			}
+		}
+		if len(prefix) == pl {
+			return
+		}
+		for _, o := range pops {
+			pwalk(append(prefix, o))
+		}
+	}
+	pwalk(nil)
+	e4.Done(true, map[string]any{"alphabet": pops, "max_length": pl}, "every sequence up to max_length of Decode (3 request ids, one id-less) / TakeReplyTokens(1..3) on a fresh connection; FIFO reference model; every returned token slice retained and judged again after the last call")
+	r.Guard("adapter-pipelined-partial-takes", partial > 1000, "sequences with a take that left tokens queued: %d", partial)
+
+	r.Assume("the gateway takes reply tokens in lockstep with Decode (gateway/core.dispatchInboundFrames: TakeReplyTokens(len(frames)) right after each Decode); section adapter-pipelined covers the ReplyTokenTracker interface beyond that use")
 }
